@@ -262,6 +262,10 @@ func classifyRoot(v ssa.Value, at ssa.Instruction) ErrClass {
 				continue
 			}
 			if f.X == v || SameVal(f.X, v) {
+				if f.X != v && fieldWrittenBetween(ef, v, at) {
+					// another load of the same field, but the field is assigned between the test and here
+					continue
+				}
 				if f.Op == token.NEQ {
 					return ErrNonNil
 				}
@@ -285,4 +289,35 @@ func ErrResultIndex(sig *types.Signature) int {
 		}
 	}
 	return -1
+}
+
+// fieldWrittenBetween: v is a load of a struct field; reports whether a store
+// to that field (same field of the same struct type, any base) lies on a path
+// from the edge of ef to at.
+func fieldWrittenBetween(ef EdgeFact, v ssa.Value, at ssa.Instruction) bool {
+	u, ok := v.(*ssa.UnOp)
+	if !ok || u.Op != token.MUL {
+		return false
+	}
+	fa, ok := u.X.(*ssa.FieldAddr)
+	if !ok || ef.B == nil || ef.Succ >= len(ef.B.Succs) {
+		return false
+	}
+	st := derefStruct(fa.X.Type())
+	start := Loc{ef.B.Succs[ef.Succ], 0}
+	found := false
+	Instrs(at.Parent(), func(in ssa.Instruction) {
+		s, isS := in.(*ssa.Store)
+		if !isS || found {
+			return
+		}
+		fb, isF := s.Addr.(*ssa.FieldAddr)
+		if !isF || fb.Field != fa.Field || derefStruct(fb.X.Type()) != st {
+			return
+		}
+		if Reachable(start, s) && Reachable(After(s), at) {
+			found = true
+		}
+	})
+	return found
 }
